@@ -42,6 +42,13 @@ func recvName(fd *ast.FuncDecl) string {
 	return ""
 }
 
+func fieldsOf(fl *ast.FieldList) []*ast.Field {
+	if fl == nil {
+		return nil
+	}
+	return fl.List
+}
+
 func litText(e ast.Expr) (string, bool) {
 	switch v := e.(type) {
 	case *ast.BasicLit:
@@ -165,6 +172,10 @@ func main() {
 					name := fd.Name.Name
 					if r := recvName(fd); r != "" {
 						name = r + "." + name
+						// a pointer receiver can change the caller's object; a value receiver cannot
+						if _, ptr := fd.Recv.List[0].Type.(*ast.StarExpr); ptr {
+							name = "*" + name
+						}
 					}
 					fns = append(fns, name)
 				}
@@ -176,7 +187,7 @@ func main() {
 		hh := fnv.New64a()
 		hh.Write([]byte(strings.Join(fns, " ")))
 		facts["funcs:"+pkg] = fmt.Sprintf("n=%d fnv64a=%016x", len(fns), hh.Sum64())
-		funcLists[pkg] = strings.Join(fns, " ")
+		funcLists["funcs:"+pkg] = strings.Join(fns, " ")
 		var gl []string
 		for g := range globals {
 			gl = append(gl, g)
@@ -184,6 +195,8 @@ func main() {
 		sort.Strings(gl)
 		facts["globals:"+pkg] = strings.Join(gl, " ")
 		writes := map[string]bool{}
+		reads := map[string]bool{}
+		pwrites := map[string]bool{}
 		for _, f := range fs {
 			for _, d := range f.Decls {
 				fd, ok := d.(*ast.FuncDecl)
@@ -248,6 +261,48 @@ func main() {
 						writes[name+":"+r] = true
 					}
 				}
+				// which package-level variables the function mentions at all (a new reader of, say, an
+				// exported limit or distribution makes the result depend on state the model ignores there)
+				ast.Inspect(fd.Body, func(n ast.Node) bool {
+					if id, ok := n.(*ast.Ident); ok && globals[id.Name] && !local[id.Name] {
+						reads[name+":"+id.Name] = true
+					}
+					return true
+				})
+				// writes through a parameter or the receiver: element, field or pointee assignments, and
+				// the in-place helpers of the standard library applied to them
+				params := map[string]bool{}
+				for _, fl := range append(append([]*ast.Field{}, fieldsOf(fd.Recv)...), fieldsOf(fd.Type.Params)...) {
+					for _, nm := range fl.Names {
+						params[nm.Name] = true
+					}
+				}
+				pnote := func(e ast.Expr, how string) {
+					if _, plain := e.(*ast.Ident); plain && how == "" {
+						return // reassigning the parameter variable itself is local
+					}
+					if r := root(e); r != "" && params[r] {
+						pwrites[name+":"+how+r] = true
+					}
+				}
+				ast.Inspect(fd.Body, func(n ast.Node) bool {
+					switch v := n.(type) {
+					case *ast.AssignStmt:
+						if v.Tok != token.DEFINE {
+							for _, l := range v.Lhs {
+								pnote(l, "")
+							}
+						}
+					case *ast.IncDecStmt:
+						pnote(v.X, "")
+					case *ast.CallExpr:
+						callee := strings.Join(strings.Fields(types.ExprString(v.Fun)), "")
+						if (callee == "copy" || strings.HasPrefix(callee, "sort.")) && len(v.Args) > 0 {
+							pnote(v.Args[0], callee+"@")
+						}
+					}
+					return true
+				})
 				ast.Inspect(fd.Body, func(n ast.Node) bool {
 					switch v := n.(type) {
 					case *ast.AssignStmt:
@@ -279,6 +334,17 @@ func main() {
 		}
 		sort.Strings(wl)
 		facts["globalwrites:"+pkg] = strings.Join(wl, " ")
+		for key, set := range map[string]map[string]bool{"reads:" + pkg: reads, "pwrites:" + pkg: pwrites} {
+			var l []string
+			for x := range set {
+				l = append(l, x)
+			}
+			sort.Strings(l)
+			hh := fnv.New64a()
+			hh.Write([]byte(strings.Join(l, " ")))
+			facts[key] = fmt.Sprintf("n=%d fnv64a=%016x", len(l), hh.Sum64())
+			funcLists[key] = strings.Join(l, " ")
+		}
 	}
 	var keys []string
 	for k := range facts {
@@ -303,7 +369,7 @@ func main() {
 	}
 	sort.Strings(fl)
 	for _, k := range fl {
-		fmt.Fprintf(&b, "-- funcs:%s = %s\n", k, funcLists[k])
+		fmt.Fprintf(&b, "-- %s = %s\n", k, funcLists[k])
 	}
 	b.WriteString("\ndef api : List String := [\n")
 	for i, a := range api {
